@@ -165,7 +165,7 @@ def main():
     print("jobs:", len(jobs))
     bad = 0
     tally = {}
-    with ProcessPoolExecutor(j) as ex:
+    with ProcessPoolExecutor(j, max_tasks_per_child=12) as ex:
         for kind, name, status, detail in ex.map(job, jobs, chunksize=1):
             tally[status] = tally.get(status, 0) + 1
             if status == "ok" and not (verbose and detail):
